@@ -139,7 +139,8 @@ RETCODE adfReadBitmap ( struct AdfVolume * const        vol,
         j++; i++;
     }
     nSect = root->bmExt;
-    while ( nSect != 0 ) {
+    /* no more extension blocks are needed once every page is read: stops on a cyclic chain */
+    while ( nSect != 0 && j < vol->bitmapSize ) {
         /* bitmap pointers in bitmapExtBlock, j <= mapSize */
         rc = adfReadBitmapExtBlock ( vol, nSect, &bmExt );
         if ( rc != RC_OK ) {
